@@ -341,14 +341,25 @@ IsRegular(c) == c # NoopCmd
 
 (* a replicated method that raises leaves the object untouched; the exception object is handed to the *)
 (* subscribers as the result (projected as -2) and the node moves on to the next entry                 *)
+(* state-dependent failure: the test object also keeps a set; "rm:k" raises KeyError unless k is in it (the set is a  *)
+(* function of the executed commands: k is in it iff the last executed command about k was "ad:k")                    *)
+SetKeys == {"1", "2"}
+AdCmd(k) == "ad:" \o k
+RmCmd(k) == "rm:" \o k
+Repeatable(c) == \E k \in SetKeys : c \in {AdCmd(k), RmCmd(k)}
+InSet(hist, k) ==
+  LET idxs == {i \in 1..Len(hist) : hist[i][2] \in {AdCmd(k), RmCmd(k)}}
+  IN idxs # {} /\ hist[CHOOSE i \in idxs : \A j \in idxs : j <= i][2] = AdCmd(k)
+RaisesNow(s, c) == c \in Raisers \/ \E k \in SetKeys : c = RmCmd(k) /\ ~InSet(s.hist, k)
+
 ApplyOne(x, n, e) ==
   LET s == x.s
       subs == SelectSeq(s.wc, LAMBDA w : w.idx = e.idx)
       rest == SelectSeq(s.wc, LAMBDA w : w.idx # e.idx)
       s1 == [s EXCEPT !.wc = rest]
-      executes == IsRegular(e.cmd) /\ e.cmd \notin Raisers /\ ~IsMemb(e.cmd)
+      executes == IsRegular(e.cmd) /\ ~RaisesNow(s, e.cmd) /\ ~IsMemb(e.cmd)
       s2 == IF executes THEN [s1 EXCEPT !.hist = Append(@, <<s.applied + 1, e.cmd, 0>>)] ELSE s1
-      res == IF executes THEN Len(s2.hist) ELSE IF e.cmd \in Raisers THEN -2 ELSE -1
+      res == IF executes THEN Len(s2.hist) ELSE IF RaisesNow(s, e.cmd) THEN -2 ELSE -1
       \* membership entries are (re)applied here too: needed after a restart, otherwise without effect
       xm == IF IsMemb(e.cmd) THEN DoChange(WithS(x, s2), n, MembReq(e.cmd), FALSE).x ELSE WithS(x, s2)
       x1 == FireSubs(xm, subs, e, res)
